@@ -148,6 +148,16 @@ def _gen_h2(rng, n, tier):
         client.append(["feed", client_preface(fb, {})])
         marks.append({"kind": "preface", "t": t})
         sid = 1
+    if first in ("preface", "late_preface") and rng.random() < 0.15:
+        # a WebSocket the application has closed and whose close the client never answers: the stream lingers in the server's tables.
+        # Whether such a half-closed WebSocket still counts as "open" is not judged (no deadline clause for these histories); what is:
+        # requests that come later are requests in progress like any other, whatever state the tables are in
+        tag = n * 10 + sid
+        by_tag[str(tag)] = [["recv"], ["send", {"type": "websocket.accept"}], ["send", {"type": "websocket.close", "code": 1000}], ["recv_until_disconnect"]]
+        client.append(["feed", fb.headers(sid, [(b":method", b"CONNECT"), (b":protocol", b"websocket"), (b":scheme", b"http"), (b":path", b"/t%d" % tag),
+                                                (b":authority", b"h.example"), (b"sec-websocket-version", b"13")], end_stream=False)])
+        marks.append({"kind": "ws_zombie", "t": t, "sid": sid})
+        sid += 2
     for i in range(rng.choice([0, 1, 2, 3])):
         d = rng.choice([0.5, 1.0, 1.0 + 1e-3, 3.0]) * T
         client.append(["advance", d])
@@ -534,7 +544,10 @@ def check(case, obs, tally):
     term_t = ft if fault == "terminate" else None
     lost_t = ft if lost else None
     ws_open = ws_accept_t is not None
+    zombie = any(m["kind"] == "ws_zombie" for m in tr["marks"])
     for (s, e) in idle_periods:
+        if zombie:
+            break
         if ws_open and s >= ws_accept_t - EPS:
             break
         limit = s + T
